@@ -185,3 +185,22 @@ def min_image_opaque(traj, s, i, j, p):
     d = traj.d
     row = [sv.sub(traj.pos(s, j, c), traj.pos(s, i, c)) for c in range(d)]
     return minimg_row(row, traj.Hm(s), p, d)
+
+
+def callee_units(deps, own):
+    """units of the functions whose contracts (proved under another property) this property's units use at call sites: they are
+    re-verified with this check, so that a change inside such a callee fails an obligation here too.
+    deps: [(contract module, set of qualnames or None)]"""
+    import importlib
+    seen = {(u.module, u.qualname, u.name) for u in own}
+    out = []
+    for modname, quals in deps:
+        m = importlib.import_module("contracts." + modname)
+        for u in m.UNITS:
+            if getattr(u, "prop", modname) != modname or (quals is not None and u.qualname not in quals):
+                continue
+            k = (u.module, u.qualname, u.name)
+            if k not in seen:
+                seen.add(k)
+                out.append(u)
+    return out
